@@ -220,13 +220,15 @@ def run_job(args):
 
         sys.setprofile(_profile)
         try:
-            eng, paths = sx.explore(path, max_paths=opts.get("max_paths", 2000), timeout_ms=opts.get("timeout_ms", 10000))
+            eng, paths = sx.explore(path, max_paths=opts.get("max_paths", 2000), timeout_ms=opts.get("timeout_ms", 10000),
+                                    budget_s=opts.get("job_budget_s"))
         finally:
             sys.setprofile(None)
         res["truncated"] = eng.truncated
         res["queries"] = eng.nq
         res["solver_s"] = round(eng.tq, 3)
         res["unknown_forks"] = eng.n_unknown_forks
+        res["budget_skipped"] = eng.n_budget_skipped
         for p in paths:
             res["paths"] += 1
             if p.status == "unsupported":
@@ -299,6 +301,7 @@ def main(prop_name, tier, seed, budget_s=None, procs=None, only=None):
     opts = dict(getattr(prop, "OPTS", {}).get(tier, {}))
     opts.setdefault("timeout_ms", 10000 if tier == "quick" else 30000)
     opts.setdefault("max_paths", 2000)
+    opts.setdefault("job_budget_s", 40 if tier == "quick" else 300)
     budget_s = budget_s or opts.get("budget_s") or (240 if tier == "quick" else 1500)
     procs = procs or int(os.environ.get("VERIF_PROCS", "16"))
     results, skipped = [], 0
@@ -321,7 +324,7 @@ def finish(prop, PROP, tier, seed, jobs, results, skipped, t0, opts):
     twins_expected = sum(1 for j in jobs if j.get("twin"))
     twins_run = twins_refuted = 0
     tot = {k: 0 for k in ("paths", "unsupported", "aborted", "vcs", "unsat", "unknown", "sat_replayed", "sat_unreproduced",
-                          "queries", "unknown_forks", "numeric_vcs")}
+                          "queries", "unknown_forks", "numeric_vcs", "budget_skipped")}
     solver_s = 0.0
     funcs = set()
     nontrivial = set()
@@ -394,10 +397,13 @@ def finish(prop, PROP, tier, seed, jobs, results, skipped, t0, opts):
             "samples": samples,
             "jobs_total": len(jobs), "jobs_skipped_time_budget": skipped,
             "paths": tot["paths"], "obligations": tot["vcs"], "discharged": tot["unsat"],
-            "decided_numerically_ground": tot["numeric_vcs"],
+            "decided_without_final_query": tot["numeric_vcs"],
+            "decided_without_final_query_note": "obligations whose verdict needs no final solver query: variable-free (ground) values compared "
+            "numerically at 50 digits, and per-path structural facts (e.g. the outcome kind of a solver-feasible path)",
             "unknown": tot["unknown"], "sat_replayed": tot["sat_replayed"], "sat_unreproduced": tot["sat_unreproduced"],
             "unsupported_paths": tot["unsupported"], "truncated_jobs": truncated, "unknown_forks": tot["unknown_forks"],
-            "inconclusive_total": inconclusive,
+            "inconclusive_total": inconclusive, "queries_skipped_job_time_budget": tot["budget_skipped"],
+            "job_time_budget_s": opts.get("job_budget_s"),
             "solver_queries": tot["queries"], "solver_time_s": round(solver_s, 2),
             "solver": "z3 " + _z3_version(), "per_query_timeout_ms": opts.get("timeout_ms"),
             "max_paths_per_job": opts.get("max_paths"),
